@@ -46,6 +46,9 @@ pub struct Rep {
     counters: BTreeMap<String, u64>,
     cur_bucket: String,
     pub verbose: bool,
+    /// set by a monitor that found inputs on which the code under test burns CPU for seconds: the
+    /// remaining workload is skipped so that the finding is reported instead of a CPU-limit kill
+    pub stop: bool,
     /// C16: one line per case, compared across feature builds by the driver
     pub transcript: Vec<String>,
 }
@@ -136,6 +139,7 @@ impl Rep {
             counters: BTreeMap::new(),
             cur_bucket: String::new(),
             verbose: false,
+            stop: false,
             transcript: Vec::new(),
         }
     }
